@@ -196,7 +196,13 @@ fn dump(req: &Value) -> Value {
             .validate(&module)
             .map(|_| true)
             .unwrap_or(false);
-        json!({"module": serde_json::to_value(&module).unwrap(), "layouts": layouts, "sizes": sizes, "valid": valid})
+        // verdict of the real validator under a restricted capability set (reference for "validation gates with the caller's capabilities")
+        let valid_caps = req.get("caps").and_then(|c| c.as_u64()).map(|c| {
+            naga::valid::Validator::new(naga::valid::ValidationFlags::all(), naga::valid::Capabilities::from_bits_truncate(c as _))
+                .validate(&module)
+                .is_ok()
+        });
+        json!({"module": serde_json::to_value(&module).unwrap(), "layouts": layouts, "sizes": sizes, "valid": valid, "valid_caps": valid_caps})
     }));
     match r {
         Ok(v) => v,
